@@ -51,13 +51,18 @@ func WithDeadline(parent context.Context, t time.Time) (context.Context, context
 // Map models sync.Map: every operation is a scheduling point and synchronizes through the map's
 // clock; Range visits a snapshot of the entries in an order chosen by the Chooser.
 type Map struct {
-	m    map[interface{}]interface{}
-	keys []interface{} // insertion order (deterministic base order for Range)
-	vc   VC
+	m     map[interface{}]interface{}
+	keys  []interface{} // insertion order (deterministic base order for Range)
+	vc    VC
+	owner *Sim
 }
 
 func (m *Map) sync(kind string) {
 	s := S
+	if m.owner != s {
+		// a package-level map of the code under test starts every simulated run empty (new process)
+		*m = Map{owner: s}
+	}
 	g := s.cur
 	g.vc.join(m.vc)
 	m.vc.join(g.vc)
